@@ -16,7 +16,9 @@ EXPLANATION = (
     "after every held input step (one input changed, held until the circuit is stable) every reader, output anchor and "
     "entity condition must equal the S3 memory semantics (0 before the first enabled write, follows v while the enable is "
     "positive, holds the last written value afterwards). Histories: all sequences of the stated length over the stated "
-    "value pools (thinned with a fixed stride above the limit)."
+    "value pools (thinned with a fixed stride above the limit). Constant conditions (when=1, when=<integer>, folded constants) and plain unconditional writes are part of the scope: "
+    "a positive constant always writes, zero never does. P: whatever the condition is, the enable handed to the IR is a reference ON signal-W carrying it (contracts.c03), the "
+    "analyser's write rules (contracts.c14c); boxes: who reads what from a wire (SignalAnalyzer.analyze), colour locks, removal of unused gates."
 )
 
 
